@@ -7,7 +7,7 @@ from hypothesis import strategies as st
 
 from ..campaign import Result
 from ..structural import (SJob, SSched, SPure, is_acyclic, time_limit, Loops, quiet,
-                          STRUCT_ASSUMPTIONS)
+                          STRUCT_ASSUMPTIONS, sparse_edges)
 
 ID = 'C15'
 LEVEL = 'exploration'
@@ -38,6 +38,16 @@ def budget(tier):
 
 @st.composite
 def level(draw, depth, max_nodes):
+    if depth > 0 and draw(st.integers(0, 7)) == 0:
+        # an empty nested scheduler (it may well have requirements and be required)
+        return dict(nodes=[], edges=[], hkeys=[], order=[])
+    if depth == 0 and draw(st.integers(0, 49)) == 0:
+        # a wide level, edges derived from one drawn seed
+        n = draw(st.sampled_from([40, 300]))
+        seed = draw(st.integers(1, 2 ** 16))
+        return dict(nodes=[None] * n, edges=sparse_edges(n, seed, back=seed % 3),
+                    hkeys=[(i * 7 + seed) % 16 for i in range(n)],
+                    order=sorted(range(n), key=lambda i: (i * 7919 + seed) % 1009))
     n = draw(st.integers(1, max_nodes))
     kinds = []
     for _ in range(n):
